@@ -504,6 +504,13 @@ func Execute(sc *Scenario, base, index uint64, tier string, suppress []string, t
 		}()
 		synctest.VerifRun(func() {
 			r.start = time.Now()
+			// simulated-time cap: a run that is still going after 72 simulated hours is a
+			// harness defect (an unbounded wait); fail fast as infrastructure trouble.
+			capTimer := time.AfterFunc(72*time.Hour, func() {
+				os.Stderr.WriteString(fmt.Sprintf("sim: simulated-time cap exceeded in scenario %s run %d (seed %d)\n", sc.Name, index, base))
+				os.Exit(4)
+			})
+			defer capTimer.Stop()
 			defer func() {
 				if e := recover(); e != nil {
 					buf := make([]byte, 16384)
